@@ -185,19 +185,24 @@ CHECKS["C05"] = {
     "technique": "exhaustive enumeration of mutation histories on real collection outputs; every tick's typed value/added/removed/modified view "
                  "compared with a reference container (std::set/map/deque) and its net per-cycle change",
     "design_ref": "DESIGN.md 2/C05",
-    "parts": [{"name": "coll", "exe": "c05_coll", "sources": ["c05_coll.cpp"], "sub": "c05", "shards": 16}],
+    "parts": [{"name": "coll", "exe": "c05_coll", "sources": ["c05_coll.cpp"], "sub": "c05", "shards": 16},
+              {"name": "window", "exe": "c05_window", "sources": ["c05_window.cpp"], "shards": 16}],
     "rule": _COLL_RULE + "Oracle (C05): at every tick the typed value equals the reference container; added/removed are exactly the NET change of the "
             "cycle (so added and removed are disjoint, added are present, removed are absent and were present, cancelling mutations leave no trace); "
             "a removed dictionary entry's value is readable during the removing cycle; the window equals the last 3 pushes in order, valid from the "
             "first push and all_valid from the minimum count. states = distinct observed per-cycle (flags,value) traces; transitions = consumer ticks "
-            "checked; non-trivial = histories with several mutations in one cycle or a tick that both adds and removes.",
-    "bounds": {"quick": "L<=2 x T=3 (collections), T=5 (TS), T=4 (TSL/TSB), T=6 (TSW); plus L<=3 x T=2", "thorough": "L<=2 x T=4 (collections), T=6 (TS), T=5 (TSL/TSB), T=8 (TSW); plus L<=3 x T=2"},
-    "min_counters": {"quick": {"nontrivial": 100000, "states": 5000, "coll.cases_tsds": 10000}},
+            "checked; non-trivial = histories with several mutations in one cycle or a tick that both adds and removes. "
+            "window part: a real TSOutput holding a DURATION window (registry.tsw_duration, ranges 1,2,3,5,9) under every push/no-push pattern over T "
+            "cycles, plus copy-then-push and move-then-push variants; after each push the value is the previous value minus an evicted PREFIX plus "
+            "the pushed element at the back (order, times and values kept; strictly older than now-range gone, strictly younger kept), and "
+            "delta_value is the pushed element.",
+    "bounds": {"quick": "L<=2 x T=3 (collections), T=5 (TS), T=4 (TSL/TSB), T=6 (TSW); plus L<=3 x T=2; duration windows T=18", "thorough": "L<=2 x T=4 (collections), T=6 (TS), T=5 (TSL/TSB), T=8 (TSW); plus L<=3 x T=2; duration windows T=22"},
+    "min_counters": {"quick": {"nontrivial": 100000, "states": 5000, "coll.cases_tsds": 10000, "window.histories_growing_past_4_or_8_after_an_eviction": 10000}},
     "assumptions": COMMON_ASSUMPTIONS + [
         "A key erased and added again in the same cycle is the same element (it keeps its contents): the cancelling pair leaves no trace, as the statement says.",
         "For TSW, valid() holds from the first push and the minimum count gates all_valid() — pinned by the repository's own Python suite "
         "(test_to_window_validity_and_absent_removed_value); the check reads 'valid only once its minimum count is reached' as all_valid.",
-        "Capacity growth beyond 12 keys and duration windows are not explored.",
+        "Capacity growth beyond 12 keys is not explored; for duration windows the behaviour of an element aged exactly now-range is left open (either is accepted).",
     ],
     "level_text": "Every execution of the bounded mutation-history space is a trace of the real containers validated tick by tick against a reference container.",
     "level_note": "Trusted: the reference containers in harness/c05_coll.cpp (model_cycle).",
